@@ -15,6 +15,8 @@ CHECKS = {
          "faults are injected at the first write of the k-th scheduled task (and the initial write); multi-write partial failures of a LinearKnob are out of the enumerated positions"),
  "C07": ("model_checking", "6", "TableIndex.tla (index column + lazily built cache) checked with TLC; every generated transition replayed on a real Table, lookups compared with the spec's Resolve",
          "3-name alphabet, 0..3 rows exhaustive (4 thorough), node identity includes last probed snapshot so lookup/update interleavings stay distinct"),
+ "C08": ("model_checking", "6", "RowSel.tla: the selector semantics as pure TLA+ operators; TLC enumerates every (table, selector[, selector]) case with its expected rows and each case is executed on a real Table (rows / rows.rows / indices / mask) under several hash seeds",
+         "all 364 index columns over 3 names up to length 5 x ~150 selector forms; composition pairs on tables up to length 3 (quick, sampled) / 4 (thorough); regexes are the spellings of the binding table"),
 }
 
 NOT_YET = {}
